@@ -37,3 +37,15 @@ native_unit("merkle_native", "winter-crypto", "crypto", "native/merkle_bounded.r
              "BatchMerkleProof::from_paths", "merkle::map_indexes", "merkle::normalize_indexes"],
             "batch openings verify, decompress to the single paths in list order and re-compress; every single-element / shape / position mutation is rejected without a panic",
             "NATIVE EXECUTION, not a proof: trees of 2/4/8/16 leaves (Blake3_256), every non-empty position subset in ascending, descending and one seeded shuffled order; mutations for all subsets of trees <= 8 leaves and a seeded 1/128 sample of the 16-leaf tree")
+
+for _n, _file in (("12", "mds_f64_12x12"), ("8", "mds_f64_8x8")):
+    kani_unit("crypto_mds%s" % _n, "winter-crypto", "crypto/src/hash/mds/%s.rs" % _file, "kani/crypto_mds%s.rs" % _n, "hash::mds::%s" % _file, [
+        H("mds%s_canonical_no_overflow_contract" % _n, ["C11"], ["%s::mds_multiply" % _file, "%s::mds_multiply_freq" % _file, "%s::block1/2/3" % _file, "fft::real_u64::fft4_real/ifft4_real_unreduced"],
+          "forall states of canonical elements: no i64/u64 overflow in the frequency-domain path and every output element is canonical (< M)",
+          timeout=900, cost=5),
+        H("mds%s_unit_vectors_contract" % _n, ["C11"], ["%s::mds_multiply" % _file],
+          "on every unit vector scaled by a symbolic 32-bit factor the result is the corresponding column of the documented circulant MDS matrix (with linearity, which is not proved here, this is the matrix product)",
+          bounded="one non-zero coordinate, every position; raw value symbolic 32-bit for 8x8 (thorough tier), 1 and 2^32-1 for 12x12",
+          timeout=900, timeout_thorough=1800, tier="quick" if _n == "12" else "thorough"),
+        H("mds%s_canary_must_fail" % _n, ["C11"], [], "false claim: second output is always 0", canary=True),
+    ])
